@@ -302,14 +302,21 @@ func (s *server) ModifyColumnFamilies(ctx context.Context, req *btapb.ModifyColu
 
 	tbl.def.ColumnFamilies = cfs
 	if dropped {
-		// Purge all data of the dropped column families
+		// Purge all data of the dropped column families.
+		// Rows does not specify what happens if rows are written or deleted during
+		// iteration (the btree engine loses its place or panics), so we collect the
+		// rows that change first, then write them back one by one.
+		var changedRows []*btpb.Row
 		tbl.rows.Ascend(func(r *btpb.Row) bool {
 			r, changed := scrubRow(r, tbl.cols())
 			if changed {
-				tbl.updateRow(r)
+				changedRows = append(changedRows, r)
 			}
 			return true
 		})
+		for _, r := range changedRows {
+			tbl.updateRow(r)
+		}
 	}
 
 	s.storage.SetTableMeta(tbl.def)
@@ -1445,37 +1452,52 @@ func (t *table) gc(now bigtable.Timestamp, done <-chan struct{}, force bool) {
 
 	// TODO(scottb): could collect batches of rows that need GC with only a read lock, update with write lock.
 
-	i := 0
-	t.rows.Ascend(func(r *btpb.Row) bool {
-		changed := false
-		for _, fam := range r.Families {
-			gcRule := rules[fam.Name]
-			if gcRule != nil {
-				for _, col := range fam.Columns {
-					n := len(col.Cells)
-					col.Cells = applyGC(col.Cells, gcRule, now)
-					changed = changed || n != len(col.Cells)
+	// Rows does not specify what happens if rows are written or deleted during iteration
+	// (the btree engine loses its place or panics), and a row has to be written back in the
+	// critical section it was read in. So the pass works in batches: it collects the rows
+	// that lose cells, writes them back once the iteration has ended, and only then lets
+	// other requests in.
+	const batchSize = 100
+	var next keyType // where the next batch starts
+	for {
+		var changedRows []*btpb.Row
+		seen := 0
+		t.rows.AscendGreaterOrEqual(next, func(r *btpb.Row) bool {
+			changed := false
+			for _, fam := range r.Families {
+				gcRule := rules[fam.Name]
+				if gcRule != nil {
+					for _, col := range fam.Columns {
+						n := len(col.Cells)
+						col.Cells = applyGC(col.Cells, gcRule, now)
+						changed = changed || n != len(col.Cells)
+					}
 				}
 			}
-		}
-		if changed {
+			if changed {
+				changedRows = append(changedRows, r)
+			}
+			next = append(append(keyType(nil), r.Key...), 0) // the smallest key after r.Key
+			seen++
+			return seen < batchSize
+		})
+		for _, r := range changedRows {
 			t.updateRow(r)
 		}
-		i++
-		if i%100 != 0 {
-			return true
+		if seen < batchSize {
+			return
 		}
 
 		// Reverse lock; check if we should exit
 		t.mu.Unlock()
-		defer t.mu.Lock()
 		select {
 		case <-done:
-			return false // server has been closed
+			t.mu.Lock()
+			return // server has been closed
 		default:
-			return true
 		}
-	})
+		t.mu.Lock()
+	}
 }
 
 func (t *table) read() {
